@@ -147,4 +147,18 @@ CHECKS = {
   'note': TB,
   'technique': 'Coq leftover-independence theorem over translated option/context assignments + cold-process oracle vs random call histories',
  },
+ 'C09': {
+  'text': ("Proof (Coq): the refill-and-retry pattern of internal/decoder's stream scanners as a lifting of ANY sentinel-terminated scanner (arbitrary state type and "
+           "step function) to a refillable window with Stream.read (the EOF call that returns true once, empty pieces, the remembered reader error). Theorems: for every "
+           "scanner, every document without NUL bytes and EVERY chunking, the stream run returns the buffer run's result and consumed length (hence any two chunkings "
+           "agree); with a failing reader the outcome is the reader's error unless the scanner had stopped by itself inside the delivered bytes. Tie: the translator "
+           "checks every NUL branch of every *Stream function (27) against the pattern's two syntactic rules; an instance of the lifted scanner (white space + "
+           "true/false/null for *bool) is extracted and compared with Decoder.Decode on ~10^4 (document, cuts) pairs including offsets. Observed: ~740 valid and "
+           "invalid documents x up to 11 destination types x (one piece, piece sizes 1..17, every single cut, pairs of cuts, cuts around 511..2048) for verdict, value "
+           "and InputOffset; stream vs Unmarshal; concatenated documents with More/InputOffset/EOF; Token sequences vs encoding/json; reader failure injected at "
+           "every byte position vs encoding/json. Partial: the in-place unescape (window shifting), readAtLeast and statForRetry arithmetic are observed, not modelled; "
+           "embedded NUL bytes are excluded from the theorems."),
+  'note': TB,
+  'technique': 'Coq parametric simulation theorem (stream scanner = buffer scanner under any chunking / failing reader) + translator pattern rules + extracted instance + exhaustive-cut differential harness',
+ },
 }
